@@ -407,7 +407,14 @@ def mon_C02(sc, trace):
                  and sc["drv"][0] == "run")
     if exhausted:
         # requests issued inside finish() are never executed by design: ignore what finish scheduled
-        fin_idx = next((i for i, t in enumerate(P) if t[0] == "cb" and t[3] == "finish"), len(P))
+        # (the finish phase is the final block of finish callbacks: a finish followed by further callbacks is no end of the run)
+        cbs = [i for i, t in enumerate(P) if t[0] == "cb"]
+        fin_idx = len(P)
+        for i in reversed(cbs):
+            if P[i][3] == "finish":
+                fin_idx = i
+            else:
+                break
         timers2 = defaultdict(list)
         sends2 = defaultdict(int)
         cur = None
